@@ -138,6 +138,31 @@ theorem ph_push_unary_int {F} (ops : FOps F) (neg : Bool) (t : Ty) (ht : t = .i 
   have := (fold_unary_agrees ops neg t ht a).1 t' n h
   simp [runC, hc, applyOp3, this, Res.bind]
 
+/-- the folder converts a float operand of an integral operation exactly as the machine's conv instruction does
+    (round half to even FIRST, then the range check): same value, and it gives up exactly when conv traps -/
+theorem fold_operand_conv_agrees {F} (ops : FOps F) (src t : Ty) (hs : src = .s ∨ src = .d) (ht : t = .i ∨ t = .l) (x : F) :
+    (∀ n, foldOperandFromFloat ops t x = some n → conv ops src t (.flt src x) = .ok (.int t n)) ∧
+    (foldOperandFromFloat ops t x = none → ∀ c, conv ops src t (.flt src x) ≠ .ok c) := by
+  unfold foldOperandFromFloat
+  cases hr : ops.roundEven x with
+  | none =>
+    constructor
+    · intro n h; simp at h
+    · intro _ c
+      rcases hs with rfl | rfl <;> rcases ht with rfl | rfl <;> simp [conv, Cell.ty, isIntTy, hr]
+  | some n =>
+    by_cases hin : inRange t n = true
+    · constructor
+      · intro n' h
+        simp [hin] at h; subst h
+        rcases hs with rfl | rfl <;> rcases ht with rfl | rfl <;> simp [conv, Cell.ty, isIntTy, hr, mk, hin]
+      · intro h; simp [hin] at h
+    · have hin' : inRange t n = false := by simpa using hin
+      constructor
+      · intro n' h; simp [hin'] at h
+      · intro _ c
+        rcases hs with rfl | rfl <;> rcases ht with rfl | rfl <;> simp [conv, Cell.ty, isIntTy, hr, mk, hin']
+
 /-- before the repair `limit` used the 64-bit c_long for LONG: 2000000000 + 2000000000 was folded
     although the machine overflows -/
 theorem long_overflow_was_folded_before_repair :
